@@ -78,6 +78,24 @@ class Translator:
                                     todo.append(h)
         return seen
 
+    def reachable_calls(self, roots):
+        """functions that can actually be EXECUTED starting from roots: direct call edges (through replacements) plus
+        indirect calls to type-compatible address-taken functions; a function whose address is merely passed around is not
+        executed unless some reachable indirect call can target it"""
+        seen, todo = set(), [r for r in roots if r in self.m.funcs]
+        while todo:
+            f = todo.pop()
+            if f in seen or f not in self.m.funcs or f in self.spec.get('replace', {}):
+                continue
+            seen.add(f)
+            for g in self.call_edges.get(f, ()):
+                rep = self.spec.get('replace', {}).get(g)
+                if rep and rep.startswith('f_'):
+                    g = rep[2:]
+                if g not in seen:
+                    todo.append(g)
+        return seen
+
     def new_obj(self, name, size, ty, kind, **kw):
         o = Obj(len(self.objs), name, size, ty, kind, **kw)
         if o.size >= (1 << OBJ_SHIFT):
@@ -285,6 +303,11 @@ class Translator:
                 self.objs[k].snap = rec['cells']
                 continue
             s = self.sites_by_name()[rec['site']]
+            if not rec['live']:
+                # freed again during init: the object does not exist in the scenario; keep the numbering, allocate nothing
+                o = self.new_obj('dead%d:%s' % (k, rec['site']), 8, ('int', 64), 'dead', tid=0, site=None, dies=False, arr=True)
+                o.dead = True
+                continue
             o = self.new_obj('init%d:%s' % (k, rec['site']), rec['size'], s['ty'], 'heap', tid=0, site=s['id'], dies=True, arr=True)
             o.snap = rec['cells']
             o.init_live = rec['live']
@@ -610,6 +633,8 @@ class Translator:
             s = self.site_by_key.get((fname, opnd))
             if s:
                 return {('site', s['id'])}
+            if '@__errno_location(' in d:
+                return {('obj', self.errno_obj.oid)}
         # load of a pointer from a struct field whose every store is known: the stored values' signatures
         if op == 'load' and getattr(self, 'M', None) is not None and not self.M_bad and self.struct_ptr_sig(ptr_ty) is None:
             mm = re.match(r'load (?:atomic )?(?:volatile )?([^,]+), (.*?)(?: syncscope\("[^"]*"\))?(?: (?:seq_cst|acquire|monotonic|unordered))?, align', d)
@@ -627,6 +652,22 @@ class Translator:
                         return res
         # load / call / inttoptr ...: fall back on the static pointee type
         st = self.struct_ptr_sig(ptr_ty)
+        if st is None:
+            # an untyped (i8*) value that is also cast to a struct pointer elsewhere in the function: that struct
+            best = None
+            pat = re.compile(r'^bitcast i8\* ' + re.escape(opnd) + r' to (%[\w.$"-]+)\*$')
+            for dd in fn.defs.values():
+                mm = pat.match(dd)
+                if mm:
+                    try:
+                        t0, _ = self.T.parse(mm.group(1))
+                        if t0[0] == 'named' and self.T.resolve(t0)[0] == 'lit':
+                            if best is None or self.T.size_align(t0)[0] > self.T.size_align(best)[0]:
+                                best = t0
+                    except IRError:
+                        pass
+            if best is not None:
+                return {(best[1], 0)}
         if st is None and op == 'load':
             # `load i8*, i8** (bitcast T*** %p to i8**)`: the slot's declared type says what the value points to
             mm = re.match(r'load (?:atomic )?(?:volatile )?[^,]+, \S+ (%[\w.$-]+)', d)
@@ -690,6 +731,7 @@ class Translator:
         self.callers = {}
         self.addr_taken = set()
         self.indirect_calls = []
+        self.call_edges = {}
         for f in funcs:
             for b in self.m.funcs[f].blocks:
                 for ins in b.insts:
@@ -708,6 +750,7 @@ class Translator:
                                 t, v, _ = self.m.parse_tv(a)
                                 args.append((t, v))
                             self.callers.setdefault(direct, []).append((f, args))
+                            self.call_edges.setdefault(f, set()).add(direct)
                             # other @refs in args are address-taken
                             for t, v in args:
                                 for g in re.findall(r'@("[^"]+"|[\w.$-]+)', v):
@@ -734,6 +777,7 @@ class Translator:
                 for cf, args in self.indirect_calls:
                     if len(args) == len(ptys) and all(a[0] == b for a, b in zip(args, ptys)):
                         self.callers.setdefault(f, []).append((cf, args))
+                        self.call_edges.setdefault(cf, set()).add(f)
 
     def build_store_map(self, funcs):
         """M[(struct, off)] = signatures of the pointer values stored into that field anywhere in the module, or None if some
@@ -769,17 +813,19 @@ class Translator:
                         elif self.M.get(l, set()) is not None:
                             self.M.setdefault(l, set()).update(val)
 
-    def site_set(self, fname, ptr_ty, opnd, kind='rw'):
-        """candidate-set id for an access through `opnd`"""
-        sid = self.site_set0(fname, ptr_ty, opnd)
+    def site_set(self, fname, ptr_ty, opnd, kind='rw', delta=0):
+        """candidate-set id for an access through `opnd` (+ delta bytes: memset/memcpy touch several cells)"""
+        sid = self.site_set0(fname, ptr_ty, opnd, delta)
         if not isinstance(sid, str):
             self.set_use.setdefault(sid, set()).add((fname, kind))
         return sid
 
-    def site_set0(self, fname, ptr_ty, opnd):
+    def site_set0(self, fname, ptr_ty, opnd, delta=0):
         if self.mode == 'native':
             return 0
         sig = self.addr_sig(fname, ptr_ty, opnd)
+        if sig is not None and delta:
+            sig = {x if x[0] in ('obj', 'site', 'priv') or x[0].startswith('arr:') else (x[0], x[1] + delta) for x in sig}
         if sig is not None and len(sig) == 1 and next(iter(sig))[0] == 'priv':
             return 'P%d' % next(iter(sig))[1]
         if sig is not None and any(x[0] == 'priv' for x in sig):
@@ -790,6 +836,9 @@ class Translator:
         return self.set_id(frozenset(sig))
 
     def cells_for_key(self, key):
+        return [(o, c) for o, c in self.cells_for_key0(key) if not getattr(o, 'dead', False)]
+
+    def cells_for_key0(self, key):
         if key is None:
             return [(o, c) for o in self.objs for c in range(o.ncells)]
         out = []
@@ -835,15 +884,15 @@ def classify_cells(tr, funcs):
     Thread 0 = vm_setup (before the spawns) and vm_final (after all threads finished)."""
     reach = {}
     roots0 = [r for r in ('vm_setup', 'vm_final') if r in tr.m.funcs]
-    reach[0] = set(tr.reachable(roots0))
+    reach[0] = set(tr.reachable_calls(roots0))
     for t in range(1, tr.nthreads + 1):
-        reach[t] = set(tr.reachable(['vm_thread_%d' % t] + tr.spec.get('thread_roots', {}).get(str(t), [])))
+        reach[t] = set(tr.reachable_calls(['vm_thread_%d' % t] + tr.spec.get('thread_roots', {}).get(str(t), [])))
     if tr.spec.get('all_threads_reach_all'):
         for t in range(1, tr.nthreads + 1):
             reach[t] = set(funcs)
     readers, writers = {}, {}
     setup_written = set()
-    setup_funcs = set(tr.reachable(['vm_setup'])) if 'vm_setup' in tr.m.funcs else set()
+    setup_funcs = set(tr.reachable_calls(['vm_setup'])) if 'vm_setup' in tr.m.funcs else set()
     for sid, uses in tr.set_use.items():
         key = tr.set_keys[sid]
         cells = [(o.oid, c) for o, c in tr.cells_for_key(key)]
@@ -874,8 +923,9 @@ def classify_cells(tr, funcs):
             cell = (o.oid, c)
             w = writers.get(cell, set()) - {0}
             r = readers.get(cell, set()) - {0}
-            if o.kind in ('heap', 'alloca') and not hasattr(o, 'snap'):
-                cls[cell] = 'shared'       # objects created during the concurrent phase
+            dyn = o.kind in ('heap', 'alloca') and not hasattr(o, 'snap')   # created during the concurrent phase
+            if dyn and not (len(w | r) == 1 and w):
+                cls[cell] = 'shared'
             elif not w:
                 cls[cell] = 'ro'
             elif len(w | r) == 1:
